@@ -2,13 +2,21 @@
 stdin JSON: list of cases {"cls", "contents": {name: hex}, "unit", "t": hex, "tunit", "cum": bool, "split": [hex...]|null}
 stdout JSON: per case: n0 (exact rationals [p,q] per name), t_seconds [p,q], out {name: hex}, cum {name: hex},
 activities/masses finite checks, split result if requested."""
-import json, sys, math
+import json, sys, math, os
 from fractions import Fraction
 
 def main():
     import sympy
     import radioactivedecay as rd
     res = []
+    loaded = {}
+    def dataset(c):
+        if c.get("ds") == "synth":
+            if "synth" not in loaded:
+                from radioactivedecay.decaydata import load_dataset
+                loaded["synth"] = load_dataset("synth", os.environ["VERIF_SYNTH_DIR"], load_sympy=True)
+            return loaded["synth"]
+        return rd.DEFAULTDATA
     for c in json.load(sys.stdin):
         hp = c["cls"] == "InventoryHP"
         cls = rd.InventoryHP if hp else rd.Inventory
@@ -16,7 +24,8 @@ def main():
         try:
             cont = {k: float.fromhex(v) for k, v in c["contents"].items()}
             t = float.fromhex(c["t"])
-            inv = cls(cont, c["unit"])
+            DS = dataset(c)
+            inv = cls(cont, c["unit"], True, DS)
             # an earlier history on the SAME object: calculations, then in-place changes
             for op in c.get("pre", []):
                 if op[0] == "decay":
@@ -34,9 +43,9 @@ def main():
                 elif op[0] == "remove":
                     inv.remove(op[1])
                 elif op[0] == "remove_id":
-                    inv.remove(rd.Nuclide(op[1]).id)
+                    inv.remove(rd.Nuclide(op[1], DS).id)
                 elif op[0] == "remove_nuclide":
-                    inv.remove(rd.Nuclide(op[1]))
+                    inv.remove(rd.Nuclide(op[1], DS))
                 elif op[0] == "remove_list":
                     inv.remove(list(op[1]))
             if hp:
@@ -66,7 +75,7 @@ def main():
             acts = dec.activities()
             r["finite"] = all(math.isfinite(float(x)) for x in list(num.values()) + list(acts.values()) +
                               list(dec.masses().values()) + list(dec.moles().values()))
-            r["stable_act"] = {k: float(a).hex() for k, a in acts.items() if rd.DEFAULTDATA.half_life(k) == math.inf}
+            r["stable_act"] = {k: float(a).hex() for k, a in acts.items() if DS.half_life(k) == math.inf}
             if c.get("cum"):
                 r["cum"] = {k: float(v).hex() for k, v in inv.cumulative_decays(t, c["tunit"]).items()}
             if c.get("split"):
@@ -86,7 +95,7 @@ def main():
                 a = float.fromhex(c["lin"]["a"])
                 if hp and a == int(a):
                     a = int(a)
-                Y = cls({k: float.fromhex(v) for k, v in c["lin"]["contents"].items()}, c["unit"])
+                Y = cls({k: float.fromhex(v) for k, v in c["lin"]["contents"].items()}, c["unit"], True, DS)
                 comb = inv * a + Y
                 r["lin_n0"] = {}
                 for k, v in comb.contents.items():
@@ -98,7 +107,7 @@ def main():
                 parts = inv.decay(t, c["tunit"]) * a + Y.decay(t, c["tunit"])
                 r["lin_sum"] = {k: float(v).hex() for k, v in parts.numbers().items()}
                 # the same sum built IN PLACE on an object that has already been used for a calculation
-                Zi = cls({k: float.fromhex(v) for k, v in c["contents"].items()}, c["unit"])
+                Zi = cls({k: float.fromhex(v) for k, v in c["contents"].items()}, c["unit"], True, DS)
                 Zi.decay(t, c["tunit"]); Zi.cumulative_decays(t, c["tunit"])
                 Zi.add({k: float.fromhex(v) for k, v in c["lin"]["contents"].items()}, c["unit"])
                 r["inpl_n0"] = {}
